@@ -33,6 +33,8 @@ const (
 	EvRefused  = "refused"   // Run() found its context already expired: nothing was started
 	EvStopCall = "stop-call" // harness issues the stop request
 	EvStopRet  = "stop-ret"  // stop request call returned
+	EvKillCall = "kill-call" // harness escalates with SIGKILL (as the agent does after maxCleanUpTime)
+	EvKillRet  = "kill-ret"
 )
 
 // Event is one entry of the totally ordered trace.
@@ -68,7 +70,15 @@ type World struct {
 	all      []*Attempt
 	hooks    []Hook
 	nEvents  atomic.Int64
+	// holdActive: attempts of Hold scripts are withheld from release only
+	// while this is set (from the start in timeout cases, from the stop call
+	// on in stop cases) — otherwise a held attempt could keep the stop's own
+	// trigger from ever being reached.
+	holdActive atomic.Bool
 }
+
+// SetHoldActive switches the withholding of Hold attempts on or off.
+func (w *World) SetHoldActive(v bool) { w.holdActive.Store(v) }
 
 // Hook lets the harness act at an exact trace position. It is called with the
 // world lock released, on the goroutine that produced the event.
@@ -95,16 +105,27 @@ func (w *World) Record(kind string) Event { return w.record(Event{Kind: kind}, n
 
 func (w *World) record(ev Event, a *Attempt) Event {
 	w.mu.Lock()
+	ev = w.appendLocked(ev)
+	w.mu.Unlock()
+	w.runHooks(ev, a)
+	return ev
+}
+
+// appendLocked appends an event; w.mu must be held. State flags of an attempt
+// (entered / exited / killedEarly) change in the same critical section as the
+// event that reports them, so the trace order is the real order.
+func (w *World) appendLocked(ev Event) Event {
 	ev.Seq = len(w.events)
 	ev.US = time.Since(w.start).Microseconds()
 	w.events = append(w.events, ev)
 	w.nEvents.Store(int64(len(w.events)))
-	hooks := w.hooks
-	w.mu.Unlock()
-	for _, h := range hooks {
+	return ev
+}
+
+func (w *World) runHooks(ev Event, a *Attempt) {
+	for _, h := range w.hooks {
 		h(w, ev, a)
 	}
-	return ev
 }
 
 // NumEvents returns the current trace length.
@@ -124,7 +145,7 @@ func (w *World) Blocked() []*Attempt {
 	defer w.mu.Unlock()
 	out := make([]*Attempt, 0, len(w.blocked))
 	for _, a := range w.blocked {
-		if !a.script.Hold {
+		if !a.script.Hold || !w.holdActive.Load() {
 			out = append(out, a)
 		}
 	}
@@ -137,7 +158,7 @@ func (w *World) HeldCount() int {
 	defer w.mu.Unlock()
 	n := 0
 	for _, a := range w.blocked {
-		if a.script.Hold {
+		if a.script.Hold && w.holdActive.Load() {
 			n++
 		}
 	}
@@ -202,8 +223,9 @@ type Attempt struct {
 	sigCh       chan os.Signal
 	gate        chan struct{} // if non-nil Run waits for it before "starting the process"
 
-	entered bool
-	exited  bool
+	entered     bool
+	exited      bool
+	killedEarly bool
 }
 
 // SetGate makes the attempt's Run wait for ch before it records its start
@@ -232,13 +254,19 @@ func create(ctx context.Context, step dag.Step) (executor.Executor, error) {
 func (a *Attempt) SetStdout(out io.Writer) { a.stdout = out }
 func (a *Attempt) SetStderr(out io.Writer) { a.stderr = out }
 
-// Kill mirrors commandExecutor.Kill: before the "process" exists it is a no-op
-// returning nil.
+// Kill mirrors commandExecutor.Kill: before the "process" exists nothing can
+// be signalled; the kill is remembered and Run then refuses to start (this is
+// the contract of the real command executor since the "killed before start"
+// fix; before it the kill was simply lost).
 func (a *Attempt) Kill(sig os.Signal) error {
 	a.w.mu.Lock()
 	started := a.entered && !a.exited
+	if !a.entered {
+		a.killedEarly = true
+	}
+	ev := a.w.appendLocked(Event{Kind: EvKill, Step: a.Step, Attempt: a.Index, Sig: sigName(sig), Started: started})
 	a.w.mu.Unlock()
-	a.w.record(Event{Kind: EvKill, Step: a.Step, Attempt: a.Index, Sig: sigName(sig), Started: started}, a)
+	a.w.runHooks(ev, a)
 	if !started {
 		return nil
 	}
@@ -302,14 +330,20 @@ func (a *Attempt) Run() error {
 		return err
 	}
 	a.w.mu.Lock()
+	if a.killedEarly {
+		a.w.mu.Unlock()
+		a.w.record(Event{Kind: EvRefused, Step: a.Step, Attempt: a.Index, Err: "killed before the command was started"}, a)
+		return errors.New("killed before the command was started")
+	}
 	a.entered = true
 	sc := a.script
 	if cur, ok := a.w.scripts[a.Step]; ok && cur.SelfExit {
 		sc.SelfExit = true
 		sc.Hold = false
 	}
+	evEnter := a.w.appendLocked(Event{Kind: EvEnter, Step: a.Step, Attempt: a.Index})
 	a.w.mu.Unlock()
-	a.w.record(Event{Kind: EvEnter, Step: a.Step, Attempt: a.Index}, a)
+	a.w.runHooks(evEnter, a)
 
 	var werr error
 	if sc.OutLen > 0 && a.stdout != nil {
@@ -357,7 +391,8 @@ func (a *Attempt) Run() error {
 	}
 	a.w.mu.Lock()
 	a.exited = true
+	evExit := a.w.appendLocked(Event{Kind: EvExit, Step: a.Step, Attempt: a.Index, Err: es})
 	a.w.mu.Unlock()
-	a.w.record(Event{Kind: EvExit, Step: a.Step, Attempt: a.Index, Err: es}, a)
+	a.w.runHooks(evExit, a)
 	return res
 }
